@@ -288,34 +288,35 @@ Lemma member_shape_ok : forall eb ed ea mods m fs,
   tspec_wf (m_type m) = true ->
   (tspec_bounded (m_type m) = true -> eb = true) ->
   (existsb multi_dim (m_d0 m :: m_ds m) = true -> ed = true) ->
-  (member_multi_annot m = true -> ea = true) ->
   (member_split m = true -> ea = true) ->
   gen_member mods m = Some fs ->
   map (ms_erase eb ed ea) (map (field_shape (length mods)) fs) = map (ms_erase eb ed ea) (member_shapes m).
 Proof.
-  intros eb ed ea mods [A t d0 ds] fs. cbn [m_annots m_type m_d0 m_ds]. intros Hwf Hb Hd Hma Hsp.
+  intros eb ed ea mods [A t d0 ds] fs. cbn [m_annots m_type m_d0 m_ds]. intros Hwf Hb Hd Hsp.
   unfold gen_member, member_shapes. cbn [m_annots m_type m_d0 m_ds].
   destruct (gen_ty mods t) as [r|] eqn:G; [|discriminate]. intros E. inversion E. subst fs. clear E.
   rewrite <- opt_flag_agrees.
-  assert (Hd0 : multi_dim d0 = true -> ed = true).
-  { intros H. apply Hd. cbn [existsb]. rewrite H. reflexivity. }
-  assert (Hds : forall d, In d ds -> multi_dim d = true -> ed = true).
-  { intros d Hin H. apply Hd. cbn [existsb]. apply orb_true_iff. right. apply existsb_exists. exists d. auto. }
-  cbn [map]. f_equal.
-  - (* the first declarator carries the attributes *)
+  assert (Hds : forall d, In d (d0 :: ds) -> multi_dim d = true -> ed = true).
+  { intros d Hin H. apply Hd. apply existsb_exists. exists d. auto. }
+  (* every declarator carries the attributes of the member *)
+  assert (Hone : forall d, In d (d0 :: ds) ->
+    ms_erase eb ed ea (field_shape (length mods)
+       (mkField (map one_attr (rec_args A)) true (decl_name d)
+                (if existsb is_opt_arg (rec_args A) then ROpt (wrap_arr d r) else wrap_arr d r)))
+    = ms_erase eb ed ea
+        (mkMS (decl_name d)
+              (if existsb is_opt_arg (rec_args A) then KOpt (decl_kind d (kind_of_tspec t)) else decl_kind d (kind_of_tspec t))
+              (existsb is_key_arg (rec_args A)) (find_id (rec_args A)) (existsb is_opt_arg (rec_args A)))).
+  { intros d Hin.
     unfold field_shape, ms_erase. cbn [f_attrs f_name f_ty ms_name ms_kind ms_key ms_id ms_opt].
-    rewrite (opt_kind_ok eb ed mods t r d0 _ Hwf Hb Hd0 G).
+    rewrite (opt_kind_ok eb ed mods t r d _ Hwf Hb (Hds d Hin) G).
     destruct ea; [reflexivity|].
     apply imp_false in Hsp. unfold member_split in Hsp. cbn [m_annots] in Hsp.
     rewrite view_one_attrs. destruct (rec_args A) as [|a [|b R']]; [reflexivity| |discriminate].
-    reflexivity.
-  - (* the others carry none *)
-    rewrite !map_map. apply map_ext_in. intros d Hin.
-    unfold field_shape, ms_erase. cbn [f_attrs f_name f_ty ms_name ms_kind ms_key ms_id ms_opt view existsb find_id].
-    rewrite (opt_kind_ok eb ed mods t r d _ Hwf Hb (Hds d Hin) G).
-    destruct ea; [reflexivity|].
-    apply imp_false in Hma. unfold member_multi_annot in Hma. cbn [m_annots m_ds] in Hma.
-    destruct (rec_args A) as [|a R']; [reflexivity|]. destruct ds; [destruct Hin | discriminate].
+    reflexivity. }
+  cbn [map]. f_equal.
+  - apply Hone. left. reflexivity.
+  - rewrite !map_map. apply map_ext_in. intros d Hin. apply Hone. right. exact Hin.
 Qed.
 
 Lemma gen_member_total : forall mods m, tspec_wf (m_type m) = true -> exists fs, gen_member mods m = Some fs.
@@ -410,13 +411,12 @@ Lemma members_shape_ok : forall eb ed ea mods ms fs,
   forallb (fun m => tspec_wf (m_type m)) ms = true ->
   (existsb (fun m => tspec_bounded (m_type m)) ms = true -> eb = true) ->
   (existsb (fun m => existsb multi_dim (m_d0 m :: m_ds m)) ms = true -> ed = true) ->
-  (existsb member_multi_annot ms = true -> ea = true) ->
   (existsb member_split ms = true -> ea = true) ->
   concat_opt (map (gen_member mods) ms) = Some fs ->
   map (ms_erase eb ed ea) (map (field_shape (length mods)) fs)
   = map (ms_erase eb ed ea) (flat_map member_shapes ms).
 Proof.
-  intros eb ed ea mods ms fs Hwf Hb Hd Hma Hsp H.
+  intros eb ed ea mods ms fs Hwf Hb Hd Hsp H.
   rewrite map_flat_map.
   apply (concat_opt_map (gen_member mods)
            (fun fs => map (ms_erase eb ed ea) (map (field_shape (length mods)) fs))
@@ -428,7 +428,6 @@ Proof.
     + apply Hwf. exact Hin.
     + intros E. eapply (imp_existsb _ eb ms m Hb Hin). exact E.
     + intros E. eapply (imp_existsb _ ed ms m Hd Hin). exact E.
-    + intros E. eapply (imp_existsb _ ea ms m Hma Hin). exact E.
     + intros E. eapply (imp_existsb _ ea ms m Hsp Hin). exact E.
   - exact H.
 Qed.
@@ -480,20 +479,19 @@ Lemma struct_shape_ok : forall eb ed ea mods A n base ms items,
   forallb (fun m => tspec_wf (m_type m)) ms = true ->
   (existsb (fun m => tspec_bounded (m_type m)) ms = true -> eb = true) ->
   (existsb (fun m => existsb multi_dim (m_d0 m :: m_ds m)) ms = true -> ed = true) ->
-  (existsb member_multi_annot ms = true -> ea = true) ->
   (struct_split mods A base || existsb member_split ms = true -> ea = true) ->
   gen_struct mods A n base ms = Some items ->
   map (ev_erase eb ed ea) (shape_of_items (length mods) items)
   = map (ev_erase eb ed ea) (shape_of_def mods (DStruct A n base ms)).
 Proof.
-  intros eb ed ea mods A n base ms items Hbase Hwf Hb Hd Hma Hsp.
+  intros eb ed ea mods A n base ms items Hbase Hwf Hb Hd Hsp.
   unfold gen_struct. destruct (concat_opt (map (gen_member mods) ms)) as [fs|] eqn:CO; [|discriminate].
   intros E. inversion E. subst items. clear E.
   assert (Hsp1 : struct_split mods A base = true -> ea = true)
     by (intros H; apply Hsp; rewrite H; reflexivity).
   assert (Hsp2 : existsb member_split ms = true -> ea = true)
     by (intros H; apply Hsp; rewrite H; apply orb_true_r).
-  pose proof (members_shape_ok eb ed ea mods ms fs Hwf Hb Hd Hma Hsp2 CO) as HM.
+  pose proof (members_shape_ok eb ed ea mods ms fs Hwf Hb Hd Hsp2 CO) as HM.
   unfold shape_of_items. cbn [flat_map shape_of_item shape_of_def app]. rewrite derives_std. cbn [app map].
   cbn [map]. f_equal. apply struct_ev_ok; assumption.
 Qed.
@@ -696,17 +694,17 @@ Proof. intros. unfold shape_of_items. apply flat_map_app. Qed.
 Lemma gen_def_shape : forall eb ed ea d mods items,
   def_wf d = true ->
   (def_bounded d = true -> eb = true) -> (def_multi_dim d = true -> ed = true) ->
-  (def_multi_annot d = true -> ea = true) -> (def_split mods d = true -> ea = true) ->
+  (def_split mods d = true -> ea = true) ->
   gen_def mods d = Some items ->
   map (ev_erase eb ed ea) (shape_of_items (length mods) items)
   = map (ev_erase eb ed ea) (shape_of_def mods d).
 Proof.
-  intros eb ed ea d. induction d using def_ind2; intros mods items Hwf Hb Hd Hma Hsp G.
+  intros eb ed ea d. induction d using def_ind2; intros mods items Hwf Hb Hd Hsp G.
   - (* module *)
     cbn [gen_def] in G.
     destruct (concat_opt (map (gen_def (mods ++ [n])) body)) as [its|] eqn:CO; [|discriminate].
     inversion G. subst items. clear G.
-    cbn [def_wf def_bounded def_multi_dim def_multi_annot def_split] in *.
+    cbn [def_wf def_bounded def_multi_dim def_split] in *.
     unfold shape_of_items. cbn [flat_map shape_of_item shape_of_def]. rewrite app_nil_r.
     cbn [map]. rewrite !map_app. cbn [map ev_erase]. f_equal. f_equal.
     change (flat_map (shape_of_item (S (length mods))) its) with (shape_of_items (S (length mods)) its).
@@ -723,11 +721,10 @@ Proof.
       * apply Hwf. exact Hin.
       * intros E. exact (imp_existsb _ eb body d Hb Hin E).
       * intros E. exact (imp_existsb _ ed body d Hd Hin E).
-      * intros E. exact (imp_existsb _ ea body d Hma Hin E).
       * intros E. exact (imp_existsb _ ea body d Hsp Hin E).
     + exact CO.
   - (* struct *)
-    cbn [gen_def def_wf def_bounded def_multi_dim def_multi_annot def_split] in *.
+    cbn [gen_def def_wf def_bounded def_multi_dim def_split] in *.
     apply andb_true_iff in Hwf. destruct Hwf as [Hw1 Hw2].
     apply struct_shape_ok; assumption.
   - (* enum *)
@@ -753,12 +750,12 @@ Qed.
 Lemma gen_defs_shape : forall eb ed ea mods defs items,
   forallb def_wf defs = true ->
   (existsb def_bounded defs = true -> eb = true) -> (existsb def_multi_dim defs = true -> ed = true) ->
-  (existsb def_multi_annot defs = true -> ea = true) -> (existsb (def_split mods) defs = true -> ea = true) ->
+  (existsb (def_split mods) defs = true -> ea = true) ->
   gen_defs mods defs = Some items ->
   map (ev_erase eb ed ea) (shape_of_items (length mods) items)
   = map (ev_erase eb ed ea) (shape_of_defs mods defs).
 Proof.
-  intros eb ed ea mods defs items Hwf Hb Hd Hma Hsp G. unfold gen_defs in G. unfold shape_of_defs.
+  intros eb ed ea mods defs items Hwf Hb Hd Hsp G. unfold gen_defs in G. unfold shape_of_defs.
   rewrite map_flat_map.
   apply (concat_opt_map (gen_def mods)
            (fun l => map (ev_erase eb ed ea) (shape_of_items (length mods) l))
@@ -769,7 +766,6 @@ Proof.
     + apply Hwf. exact Hin.
     + intros E. exact (imp_existsb _ eb defs d Hb Hin E).
     + intros E. exact (imp_existsb _ ed defs d Hd Hin E).
-    + intros E. exact (imp_existsb _ ea defs d Hma Hin E).
     + intros E. exact (imp_existsb _ ea defs d Hsp Hin E).
   - exact G.
 Qed.
@@ -898,25 +894,24 @@ Theorem structure_preserved_upto_classes : forall eb ed ea defs items,
   supported defs = true ->
   (known_bounds defs = true -> eb = true) ->
   (known_multi_dim defs = true -> ed = true) ->
-  (known_multi_annot defs = true -> ea = true) ->
   (known_split defs = true -> ea = true) ->
   compile_defs defs = Ok items ->
   map (ev_erase eb ed ea) (shape_of_items 0 items) = map (ev_erase eb ed ea) (shape_of_defs [] defs).
 Proof.
-  intros eb ed ea defs items H Hb Hd Hma Hsp C. unfold compile_defs in C.
+  intros eb ed ea defs items H Hb Hd Hsp C. unfold compile_defs in C.
   rewrite (supported_parse_ok defs H) in C.
   destruct (gen_defs [] defs) as [its|] eqn:G; [|discriminate]. inversion C. subst its.
-  apply (gen_defs_shape eb ed ea [] defs items (supported_wf defs H) Hb Hd Hma Hsp G).
+  apply (gen_defs_shape eb ed ea [] defs items (supported_wf defs H) Hb Hd Hsp G).
 Qed.
 
 (* THE property: outside the four recorded classes the declared structure is preserved exactly *)
 Theorem idl_structure_preserved : forall defs,
   supported defs = true ->
-  known_bounds defs = false -> known_multi_annot defs = false ->
+  known_bounds defs = false ->
   known_multi_dim defs = false -> known_split defs = false ->
   exists items, compile_defs defs = Ok items /\ shape_of_items 0 items = shape_of_defs [] defs.
 Proof.
-  intros defs H K1 K2 K3 K4. destruct (compile_total_on_supported defs H) as [items C].
+  intros defs H K1 K3 K4. destruct (compile_total_on_supported defs H) as [items C].
   exists items. split; [exact C|].
   pose proof (structure_preserved_upto_classes false false false defs items H) as P.
   rewrite !evs_erase_none in P. apply P; try exact C; intros E; congruence.
@@ -925,12 +920,12 @@ Qed.
 (* everything except bounds is preserved as soon as classes 2-4 are absent *)
 Theorem structure_preserved_except_bounds : forall defs items,
   supported defs = true ->
-  known_multi_annot defs = false -> known_multi_dim defs = false -> known_split defs = false ->
+  known_multi_dim defs = false -> known_split defs = false ->
   compile_defs defs = Ok items ->
   map (ev_erase true false false) (shape_of_items 0 items)
   = map (ev_erase true false false) (shape_of_defs [] defs).
 Proof.
-  intros defs items H K2 K3 K4 C.
+  intros defs items H K3 K4 C.
   apply (structure_preserved_upto_classes true false false defs items H); try exact C; intros E; congruence.
 Qed.
 
@@ -1005,7 +1000,6 @@ Section Clauses.
   Qed.
 
   (* attributes intact (classes 2 and 4 absent); bounds and dimensions do not matter: *)
-  Hypothesis K2 : known_multi_annot defs = false.
   Hypothesis K4 : known_split defs = false.
 
   Let Hattr : map (ev_erase (known_bounds defs) (known_multi_dim defs) false) (shape_of_items 0 items)
@@ -1091,7 +1085,7 @@ Definition w_split : list def :=
 
 Definition only_class (k : N) (defs : list def) : Prop :=
   supported defs = true /\
-  known_bounds defs = N.eqb k 1 /\ known_multi_annot defs = N.eqb k 2 /\
+  known_bounds defs = N.eqb k 1 /\
   known_multi_dim defs = N.eqb k 3 /\ known_split defs = N.eqb k 4.
 
 Lemma bounds_refuted : exists defs items,
@@ -1104,14 +1098,17 @@ Proof.
   - vm_compute. discriminate.
 Qed.
 
-Lemma multi_annot_refuted : exists defs items,
-  only_class 2 defs /\ compile_defs defs = Ok items
-  /\ keys_of (shape_of_items 0 items) <> keys_of (shape_of_defs [] defs).
+(* the former class 2 (fixed in /repo by 7270bfe): `@key long a, b;` makes a AND b keys *)
+Lemma multi_declarator_annotations_preserved : exists items,
+  only_class 0 w_multi_annot /\ compile_defs w_multi_annot = Ok items
+  /\ keys_of (shape_of_items 0 items) = [("S", ["a"; "b"])]
+  /\ shape_of_items 0 items = shape_of_defs [] w_multi_annot.
 Proof.
-  exists w_multi_annot. eexists. split; [|split].
+  eexists. split; [|split; [|split]].
   - repeat split; vm_compute; reflexivity.
   - vm_compute. reflexivity.
-  - vm_compute. discriminate.
+  - vm_compute. reflexivity.
+  - vm_compute. reflexivity.
 Qed.
 
 Lemma multi_dim_refuted : exists defs items,
@@ -1249,7 +1246,7 @@ Proof. intros. unfold compile, preprocess. cbn [pp_items]. rewrite pp_if. reflex
 (* combined forms used by Props/C41.v *)
 Lemma headers_preserved : forall defs items,
   supported defs = true -> compile_defs defs = Ok items ->
-  known_multi_annot defs = false -> known_split defs = false ->
+  known_split defs = false ->
   struct_headers_of (shape_of_items 0 items) = struct_headers_of (shape_of_defs [] defs)
   /\ enums_of (shape_of_items 0 items) = enums_of (shape_of_defs [] defs).
 Proof. intros. split; [apply struct_headers_preserved | apply enums_preserved]; assumption. Qed.
